@@ -347,6 +347,10 @@ func (fr *Frame) applyContract(c *Contract, names []string, ptypes []types.Type,
 		pos = site.Pos()
 	}
 	beforeUpto, beforeReach := len(vc.cmds), st.reach
+	if c.Flags["noretain"] == "" {
+		// the callee may keep the references it is given
+		fr.escapeArgs(args)
+	}
 	old := st.clone()
 	for _, l := range c.Lets {
 		v, t, err := fr.evalIn(l.Text, pkg, env, st, old, nil)
@@ -356,19 +360,23 @@ func (fr *Frame) applyContract(c *Contract, names []string, ptypes []types.Type,
 		env[l.Label] = bound{v, t}
 	}
 	for _, r := range c.Requires {
-		v, _, err := fr.evalIn(r.Text, pkg, env, st, old, nil)
-		if err != nil {
-			return Value{}, fmt.Errorf("%s:%d: %v", r.File, r.Line, err)
-		}
 		if fr.dry > 0 {
+			v, _, err := fr.evalIn(r.Text, pkg, env, st, old, nil)
+			if err != nil {
+				return Value{}, fmt.Errorf("%s:%d: %v", r.File, r.Line, err)
+			}
 			vc.assume(st, v.C[0])
 			continue
+		}
+		v, sks, err := fr.evalInGoal(r.Text, pkg, env, st, old)
+		if err != nil {
+			return Value{}, fmt.Errorf("%s:%d: %v", r.File, r.Line, err)
 		}
 		nm := shortName(callee) + ":" + c.clauseName(r)
 		if fr.parent != nil {
 			nm = funcKey(fr.fn) + ":" + nm
 		}
-		vc.obligeHinted(st, "pre", nm, v.C[0], nil, pos, r.Text)
+		vc.obligeHinted(st, "pre", nm, v.C[0], sks, pos, r.Text)
 	}
 	// frame
 	for _, m := range c.Modifies {
@@ -388,6 +396,7 @@ func (fr *Frame) applyContract(c *Contract, names []string, ptypes []types.Type,
 		q := sym(fmt.Sprintf("al!q%d", vc.nfresh))
 		vc.emit("(assert (forall ((" + q + " Int)) (=> (select " + oldA + " " + q + ") (select " + neuA + " " + q + "))))")
 		st.heap[allocKey] = neuA
+		st.markDirty(allocKey)
 	}
 	// results
 	var res Value
@@ -661,16 +670,31 @@ func (fr *Frame) execAppend(cc *ssa.CallCommon, args []Value, st *State, site ss
 			lo1 := roff
 			hi1 := vc.define("append.mid", "Int", iAdd(roff, s.C[2]))
 			hi2 := vc.define("append.end", "Int", iAdd(roff, newLen))
-			vc.assume(st, "(forall (("+i+" Int)) (=> (and (<= "+lo1+" "+i+") (< "+i+" "+hi1+")) (= (select "+fa+" "+i+") (select "+oldArr+" (+ "+s.C[1]+" (- "+i+" "+roff+"))))))")
-			vc.assume(st, "(forall (("+i+" Int)) (=> (and (<= "+hi1+" "+i+") (< "+i+" "+hi2+")) (= (select "+fa+" "+i+") (select "+srcArr+" (+ "+tl.C[1]+" (- "+i+" "+hi1+"))))))")
+			vc.assume(st, "(forall (("+i+" Int)) (! (=> (and (<= "+lo1+" "+i+") (< "+i+" "+hi1+")) (= (select "+fa+" "+i+") (select "+oldArr+" (+ "+s.C[1]+" (- "+i+" "+roff+"))))) :pattern ((select "+fa+" "+i+"))))")
+			vc.assume(st, "(forall (("+i+" Int)) (! (=> (and (<= "+hi1+" "+i+") (< "+i+" "+hi2+")) (= (select "+fa+" "+i+") (select "+srcArr+" (+ "+tl.C[1]+" (- "+i+" "+hi1+"))))) :pattern ((select "+fa+" "+i+"))))")
 			// in place: cells outside the appended window keep their value
-			vc.assume(st, sImp(inplace, "(forall (("+i+" Int)) (=> (or (< "+i+" "+hi1+") (>= "+i+" "+hi2+")) (= (select "+fa+" "+i+") (select "+oldArr+" "+i+"))))"))
+			vc.assume(st, sImp(inplace, "(forall (("+i+" Int)) (! (=> (or (< "+i+" "+hi1+") (>= "+i+" "+hi2+")) (= (select "+fa+" "+i+") (select "+oldArr+" "+i+"))) :pattern ((select "+fa+" "+i+"))))"))
 			if n, ok := isConstLen(tlen); ok {
 				for j := 0; j < n; j++ {
 					vc.assume(st, sEq(sSel(fa, iAdd(hi1, sInt(int64(j)))), sSel(srcArr, iAdd(tl.C[1], sInt(int64(j))))))
 				}
 			}
 			vc.set(st, ek+c.Suffix, srt, sStore(m, res.C[0], fa))
+			if fr.dry == 0 {
+				reach := st.reach
+				faC, oldC, srcC := fa, oldArr, srcArr
+				sOff, tOff, lo1C, hi1C, hi2C, roffC, inpl := s.C[1], tl.C[1], lo1, hi1, hi2, roff, inplace
+				vc.univ = append(vc.univ, func(inst []Term) {
+					for _, t0 := range inst {
+						for _, t := range []Term{t0, iAdd(roffC, t0)} {
+							a1 := sImp(sAnd("(<= "+lo1C+" "+t+")", "(< "+t+" "+hi1C+")"), sEq(sSel(faC, t), sSel(oldC, "(+ "+sOff+" (- "+t+" "+roffC+"))")))
+							a2 := sImp(sAnd("(<= "+hi1C+" "+t+")", "(< "+t+" "+hi2C+")"), sEq(sSel(faC, t), sSel(srcC, "(+ "+tOff+" (- "+t+" "+hi1C+"))")))
+							a3 := sImp(sAnd(inpl, sOr("(< "+t+" "+hi1C+")", "(>= "+t+" "+hi2C+")")), sEq(sSel(faC, t), sSel(oldC, t)))
+							vc.emit("(assert " + sImp(reach, sAnd(a1, a2, a3)) + ")")
+						}
+					}
+				})
+			}
 		}
 		_ = ci
 	}
@@ -705,9 +729,24 @@ func (fr *Frame) execCopy(cc *ssa.CallCommon, args []Value, st *State, site ssa.
 		oldArr := sSel(m, dst.C[0])
 		fa := vc.fresh("copy.data"+c.Suffix, "(Array Int "+c.Sort+")")
 		i := sym(fmt.Sprintf("i!%d", vc.nfresh))
-		vc.assume(st, "(forall (("+i+" Int)) (=> (and (<= "+dst.C[1]+" "+i+") (< "+i+" (+ "+dst.C[1]+" "+n+"))) (= (select "+fa+" "+i+") (select "+srcArr+" (+ "+src.C[1]+" (- "+i+" "+dst.C[1]+"))))))")
-		vc.assume(st, "(forall (("+i+" Int)) (=> (or (< "+i+" "+dst.C[1]+") (>= "+i+" (+ "+dst.C[1]+" "+n+"))) (= (select "+fa+" "+i+") (select "+oldArr+" "+i+"))))")
+		vc.assume(st, "(forall (("+i+" Int)) (! (=> (and (<= "+dst.C[1]+" "+i+") (< "+i+" (+ "+dst.C[1]+" "+n+"))) (= (select "+fa+" "+i+") (select "+srcArr+" (+ "+src.C[1]+" (- "+i+" "+dst.C[1]+"))))) :pattern ((select "+fa+" "+i+"))))")
+		vc.assume(st, "(forall (("+i+" Int)) (! (=> (or (< "+i+" "+dst.C[1]+") (>= "+i+" (+ "+dst.C[1]+" "+n+"))) (= (select "+fa+" "+i+") (select "+oldArr+" "+i+"))) :pattern ((select "+fa+" "+i+"))))")
 		vc.set(st, ek+c.Suffix, srt, sStore(m, dst.C[0], fa))
+		if fr.dry == 0 {
+			// instances of the two copy axioms at the terms a later goal talks about
+			reach := st.reach
+			dOff, sOff := dst.C[1], src.C[1]
+			faC, srcC, oldC, nC := fa, srcArr, oldArr, n
+			vc.univ = append(vc.univ, func(inst []Term) {
+				for _, t0 := range inst {
+					for _, t := range []Term{t0, iAdd(dOff, t0)} {
+						in1 := sImp(sAnd("(<= "+dOff+" "+t+")", "(< "+t+" (+ "+dOff+" "+nC+"))"), sEq(sSel(faC, t), sSel(srcC, "(+ "+sOff+" (- "+t+" "+dOff+"))")))
+						in2 := sImp(sOr("(< "+t+" "+dOff+")", "(>= "+t+" (+ "+dOff+" "+nC+"))"), sEq(sSel(faC, t), sSel(oldC, t)))
+						vc.emit("(assert " + sImp(reach, sAnd(in1, in2)) + ")")
+					}
+				}
+			})
+		}
 	}
 	return Value{C: []Term{n}}, nil
 }
